@@ -3,6 +3,7 @@
 From Coq Require Import NArith List Bool String.
 From DBG Require Import Interop.Val Spec.Dna Packed.KmerModel Algo.KmerHist Interop.DispatchExts Interop.DispatchSeq.
 From DBG Require Interop.DispatchBBHash Interop.DispatchGraph.
+From DBG Require Interop.DispatchAscii.
 Import ListNotations.
 Open Scope N_scope.
 
@@ -122,6 +123,7 @@ Definition prefix2 (op : string) : string := substring 0 2 op.
 Definition dispatchers : list (string -> val -> option val) :=
   [ d_kmer; d_spec_kmer; d_exts; run_table generic_spec_ops; d_seq;
     DispatchGraph.d_graph;
+    DispatchAscii.d_ascii;
     DispatchBBHash.d_bbhash
   ].
 Fixpoint first_some (ds : list (string -> val -> option val)) (op : string) (v : val) : option val :=
